@@ -103,6 +103,21 @@ def run_load_cell(cell, path_or_text, fmt_real, fails):
             shutil.copyfile(p, q)
             p = q
             where += f" file={os.path.basename(q)!r}"
+        pipe_fds = []
+        if cell["src"] == "pipe":
+            # a path that is NOT a regular file (process substitution, /dev/stdin fed by a pipe): /dev/fd/N of a pipe holding the text
+            data_ = open(p, "rb").read()
+            if len(data_) > 60000:
+                return "skip"
+
+            def _pipe():
+                r_, w_ = os.pipe()
+                os.write(w_, data_)
+                os.close(w_)
+                pipe_fds.append(r_)
+                return f"/dev/fd/{r_}"
+
+            p = _pipe()
         if cell["fmtarg"] == "suffix":
             # the suffix decides: give the file the suffix of the requested format
             if fmt != fmt_real and not stem:
@@ -111,9 +126,11 @@ def run_load_cell(cell, path_or_text, fmt_real, fails):
                 p = q
             args = (str(p) if cell["src"] == "str" else Path(p),)
         else:
-            args = (str(p) if cell["src"] == "str" else Path(p), fmt)
+            args = (Path(p) if cell["src"] == "Path" else str(p), fmt)
         if cell.get("key") and fmt_real == "cdxml" and fn == "load":
             path_or_text = p
+        if cell["src"] == "pipe":
+            path_or_text = _pipe()      # a second pipe with the same text for the class-level reader
     else:
         args = (path_or_text, fmt)
     try:
@@ -121,6 +138,21 @@ def run_load_cell(cell, path_or_text, fmt_real, fails):
         raised = None
     except Exception as e:
         got, raised = None, e
+    if is_file and cell["src"] == "pipe":
+        try:
+            return _judge_load(cell, fn, fmt, fmt_real, cls, name, key, path_or_text, got, raised, where, fails)
+        finally:
+            for fd_ in pipe_fds:
+                try:
+                    os.close(fd_)
+                except OSError:
+                    pass
+    return _judge_load(cell, fn, fmt, fmt_real, cls, name, key, path_or_text, got, raised, where, fails)
+
+
+def _judge_load(cell, fn, fmt, fmt_real, cls, name, key, path_or_text, got, raised, where, fails):
+    import molli as ml
+
     # ---------------- expectation
     if fmt in ("sdf", "qqq"):
         if not isinstance(raised, ValueError):
@@ -398,6 +430,8 @@ def load_cells():
                             yield {"fn": fn, "fmt": fmt, "src": src, "fmtarg": fmtarg, "otype": ot, "name": name}
                             if name is None:
                                 yield {"fn": fn, "fmt": fmt, "src": src, "fmtarg": fmtarg, "otype": ot, "name": name, "stem": "mol.conf.1 v2.XYZ.mol2.final"}
+                            if name is None and src == "str" and fmtarg == "explicit" and fmt in ("xyz", "mol2"):
+                                yield {"fn": fn, "fmt": fmt, "src": "pipe", "fmtarg": fmtarg, "otype": ot, "name": name}
                             if fn == "load" and fmt == "cdxml":
                                 for key in ("first", "last", "missing", "index0", "index_last", "empty"):
                                     yield {"fn": fn, "fmt": fmt, "src": src, "fmtarg": fmtarg, "otype": ot, "name": name, "key": key}
